@@ -375,6 +375,9 @@ func (x *Exec) modComps(fc *FuncContract, target *ssa.Function) (comps []string,
 				}
 				found = true
 				if isStruct(s.Field(k).Type()) {
+					if ac := x.atomicCompOf(s.Field(k).Type()); ac != "" {
+						comps = append(comps, ac)
+					}
 					comps = append(comps, x.allFieldComps(s.Field(k).Type())...)
 				} else {
 					cn, srt, _ := x.fieldComp(stt, k)
@@ -404,6 +407,13 @@ func (x *Exec) havocMod(st *State, ents []modEntry) {
 		case e.all:
 			x.havocHeapAll(st)
 			return
+		case e.obj && e.typ != nil && x.atomicCompOf(e.typ) != "":
+			// a typed atomic (sync/atomic.Int32 ...): its value lives in the A_<Type> component
+			cn := x.atomicCompOf(e.typ)
+			srt := x.comps[cn]
+			h := x.heapGet(st, cn, srt)
+			nv := x.havocConst("mod_"+cn, elemSortOfArray(srt))
+			st.heap[cn] = x.define(x.fresh(cn), srt, sx("store", h, e.ref, nv))
 		case e.obj && e.typ != nil && isStruct(e.typ):
 			// every field of that object may change: the field components of its struct type
 			// (nested structs included) are havocked as a whole — an over-approximation of
